@@ -260,6 +260,9 @@ func richTypes(r *rand.Rand) (decls []string, structs []string) {
 
 var c12Suffixes = []string{"", "", "X", "_", "2", "Of", "_A"}
 
+var c12Heads = []string{"kip", "mk", "qz", "zed", "vax", "wob"}
+var c12Syllables = []string{"Qz", "Ka", "Lo", "Mu", "Ne", "Pi", "Ro", "Su", "Ty", "Vu", "Wa", "Xe", "Yo", "Zi", "Bo", "Cu", "Di", "Fa", "Gu", "Ha"}
+
 // RichC12 generates groups of cases: one package under the default prefixes and its consistently
 // renamed copies under -prefix / -pluginprefix. Within one group all cases must produce the same
 // functions up to renaming.
@@ -339,7 +342,7 @@ func RichC12(r *rand.Rand, n int) []*Case {
 		}
 		id := func(s string) string { return fmt.Sprintf("g%d-%s", g, s) }
 		out = append(out, mk(id("default"), "default", "derive", nil))
-		for _, p := range []string{"derivX", "gen", "deriveNew", "d"} {
+		for _, p := range []string{"derivX", "gen", "deriveNew", "drv"} {
 			out = append(out, mk(id("prefix-"+p), "global:"+p, p, nil))
 		}
 		// per-plugin overrides, prefix-free: distinct first letters
@@ -352,24 +355,28 @@ func RichC12(r *rand.Rand, n int) []*Case {
 			ups = append(ups, p)
 		}
 		sort.Strings(ups)
+		// Prefixes that cannot be captured by anything else in the package: head + one capitalised
+		// syllable (+ tail), at least 4 letters, never an identifier of the package template (a, b, n,
+		// Wrap<i>, F<i>, …), a local of the emitted code (this, that, dst, src, object, h, v, i, k, …), a Go
+		// keyword or a predeclared identifier; distinct syllables make the set prefix-free.
 		ov := map[string]string{}
-		letters := r.Perm(20)
+		syl := r.Perm(len(c12Syllables))
 		for i, p := range ups {
 			if r.Intn(3) > 0 {
-				ov[p] = string(rune('a'+letters[i])) + []string{"", "x", "Gen", "_"}[r.Intn(4)]
+				ov[p] = c12Heads[r.Intn(len(c12Heads))] + c12Syllables[syl[i]] + []string{"", "x", "Gen", "_"}[r.Intn(4)]
 			}
 		}
 		if len(ov) > 0 {
 			out = append(out, mk(id("plugin-free"), "plugin-free", "derive", ov))
 		}
 		// nested overrides: every used plugin's prefix extends the previous one by a letter that no
-		// call suffix starts with ('q'), so dispatch is still by the intended plugin, but every
+		// call suffix starts with ('Q'), so dispatch is still by the intended plugin, but every
 		// prefix is a proper prefix of the next.
 		nov := map[string]string{}
-		cur := "n"
+		cur := "nst"
 		for _, p := range ups {
 			nov[p] = cur
-			cur += "q"
+			cur += "Q"
 		}
 		out = append(out, mk(id("plugin-nested"), "plugin-nested", "derive", nov))
 		// global prefix and overrides together
@@ -424,7 +431,7 @@ func NestedC12(r *rand.Rand, n int) []*Case {
 		} else {
 			perm := r.Perm(len(all))
 			k := 2 + r.Intn(4)
-			cur := []string{"gen", "n", "eq"}[r.Intn(3)]
+			cur := []string{"gen", "nst", "eqv"}[r.Intn(3)]
 			for i := 0; i < k; i++ {
 				pls = append(pls, all[perm[i]])
 				chain = append(chain, cur)
@@ -474,11 +481,11 @@ func NestedC12(r *rand.Rand, n int) []*Case {
 }
 
 // CaptureC12: tiny packages under nested overrides where the call names decide the handler
-// (equal=eq, hash=eqH, compare=eqHa): the model predicts handler / rejection; all four flag variants.
+// (equal=eqv, hash=eqvH, compare=eqvHa): the model predicts handler / rejection; all four flag variants.
 func CaptureC12(r *rand.Rand, n int) []*Case {
-	ov := map[string]string{"equal": "eq", "hash": "eqH", "compare": "eqHa"}
+	ov := map[string]string{"equal": "eqv", "hash": "eqvH", "compare": "eqvHa"}
 	pls := Plugins("derive", ov)
-	names := []string{"eq", "eqH", "eqHa", "eqX", "eqHX", "eqHaX", "eq_", "eqH_", "eqHash", "eqHal"}
+	names := []string{"eqv", "eqvH", "eqvHa", "eqvX", "eqvHX", "eqvHaX", "eqv_", "eqvH_", "eqvHash", "eqvHal"}
 	var out []*Case
 	for i := 0; i < n; i++ {
 		nc := 1 + r.Intn(3)
